@@ -126,4 +126,124 @@ theorem eval_try_is_tryFinally_tryCore_dispatchExcept (f sc : Nat) (n body last 
         tryCore (eval f tvs body) (tryHandlers f sc clauses) (tryOtherwise f sc clauses)) fin) := by
   rw [eval_try _ _ _ h, evalTry_is_tryFinally_tryCore f sc n body last clauses hc hl]
 
+/-! ### except clauses (the three shapes `exceptHandler` reads from the node's children) -/
+
+/-- the type under which an error is matched by typed clauses -/
+def errType : Sig → String
+  | .err re _ => re.type
+  | .iter re _ => re.type
+  | _ => "UnexpectedError"
+
+/-- binding the error object to the clause variable: a failure of the assignment is dropped -/
+def bindErr (evs : Nat) (var : List Nat) (e : Sig) : M Unit := do
+  let eo ← errObject e
+  match ← attemptE (setValue evs var eo) with
+  | .error e => if e.isFatal then throw e
+  | .ok _ => pure ()
+
+/-- `bindErr` followed by `k`, in the shape the evaluator's code has -/
+def bindErrThen {α : Type} (evs : Nat) (var : List Nat) (e : Sig) (k : M α) : M α := do
+  let eo ← errObject e
+  match ← attemptE (setValue evs var eo) with
+  | .error e => if e.isFatal then throw e else k
+  | .ok _ => k
+
+theorem bindErrThen_eq {α : Type} (evs : Nat) (var : List Nat) (e : Sig) (k : M α) :
+    bindErrThen evs var e k = (do bindErr evs var e; k) := by
+  simp only [bindErrThen, bindErr, bind_assoc]
+  congr; funext eo; congr; funext r
+  cases r with
+  | ok _ => simp
+  | error e' => by_cases h : e'.isFatal = true <;> simp [h]
+
+/-- `except { block }`: handles every error -/
+theorem exceptHandler_bare (f sc : Nat) (c st : Node) (e : Sig) (hc : c.children = [some st]) :
+    exceptHandler (f+1) sc c e = (do
+      let evs ← newChild sc (← scopeName c)
+      let _ ← eval f evs st
+      pure (some Val.null)) := by
+  rw [exceptHandler.eq_def]; simp [hc, child]
+
+/-- `except e { block }` / `except as e { block }`: handles every error, binds the error object -/
+theorem exceptHandler_bind (f sc : Nat) (c c0 st : Node) (e : Sig) (hc : c.children = [some c0, some st])
+    (h0 : c0.name ≠ "string") :
+    exceptHandler (f+1) sc c e = (do
+      let var ← (if c0.name == "as" then do pure (← tokOf (← child c0 0)).val else do pure (← tokOf c0).val)
+      let evs ← newChild sc (← scopeName c)
+      bindErrThen evs var e (do
+        let _ ← eval f evs st
+        pure (some Val.null))) := by
+  rw [exceptHandler.eq_def]; simp [hc, child, h0, bindErrThen]
+  rfl
+
+theorem mapM_some_pure (g : Option Node → M Node) (hg : ∀ x, g (some x) = pure x) (l : List Node) :
+    (l.map some).mapM g = pure l := by
+  induction l with
+  | nil => rfl
+  | cons x xs ih => simp [List.mapM_cons, ih, hg]
+
+theorem takeWhile_strs (strs : List Node) (rest : List Node) (hs : ∀ x ∈ strs, x.name = "string")
+    (hr : ∀ x, rest.head? = some x → x.name ≠ "string") :
+    (strs ++ rest).takeWhile (·.name == "string") = strs ∧ (strs ++ rest).dropWhile (·.name == "string") = rest := by
+  induction strs with
+  | nil =>
+    cases rest with
+    | nil => simp
+    | cons r rs => have := hr r rfl; simp [List.takeWhile_cons, List.dropWhile_cons, this]
+  | cons x xs ih =>
+    have hx : x.name = "string" := hs x (by simp)
+    have := ih (fun y hy => hs y (by simp [hy]))
+    simp [List.takeWhile_cons, List.dropWhile_cons, hx, this]
+
+/-- `except "T1", "T2" { block }`: the type strings are EVALUATED in order (`typedMatch`); the clause
+    handles the error iff one of them equals its type -/
+theorem exceptHandler_typed (f sc : Nat) (c s0 st : Node) (ss : List Node) (e : Sig)
+    (hc : c.children = ((s0 :: ss) ++ [st]).map some) (hs : ∀ x ∈ s0 :: ss, x.name = "string")
+    (hst : st.name = "statements") :
+    exceptHandler (f+1) sc c e = (do
+      if ← typedMatch (errType e) bytesToString ((s0 :: ss).map fun ch => eval f sc ch) then
+        let evs ← newChild sc (← scopeName c)
+        let _ ← eval f evs st
+        pure (some Val.null)
+      else pure none) := by
+  have h0 : s0.name = "string" := hs s0 (by simp)
+  have htd := takeWhile_strs (s0 :: ss) [st] hs (by intro x hx; cases hx; simp [hst])
+  have hk : ∀ g : Option Node → M Node, (∀ x, g (some x) = pure x) → c.children.mapM g = pure ((s0 :: ss) ++ [st]) := by
+    intro g hg; rw [hc]; exact mapM_some_pure g hg _
+  have hlen : (c.children.length == 1) = false := by simp [hc]
+  have hne : (s0.name != "string") = false := by simp [h0]
+  have h0c : c.children[0]? = some (some s0) := by simp [hc]
+  rw [exceptHandler.eq_def]
+  simp only [hlen, child, h0c, pure_bind, hne, Bool.and_false]
+  rw [hk _ (fun _ => rfl)]
+  simp only [pure_bind, htd.1, htd.2]
+  simp [errType, hst]
+  cases e <;> rfl
+
+/-- `except "T1", "T2" as v { block }` -/
+theorem exceptHandler_typed_as (f sc : Nat) (c s0 a av st : Node) (t : Tok) (ss : List Node) (e : Sig)
+    (hc : c.children = ((s0 :: ss) ++ [a, st]).map some) (hs : ∀ x ∈ s0 :: ss, x.name = "string")
+    (ha : a.name = "as") (hac : a.children = [some av]) (hat : av.tok = some t)
+    (hst : st.name = "statements") :
+    exceptHandler (f+1) sc c e = (do
+      if ← typedMatch (errType e) bytesToString ((s0 :: ss).map fun ch => eval f sc ch) then
+        let evs ← newChild sc (← scopeName c)
+        bindErrThen evs t.val e (do
+          let _ ← eval f evs st
+          pure (some Val.null))
+      else pure none) := by
+  have h0 : s0.name = "string" := hs s0 (by simp)
+  have htd := takeWhile_strs (s0 :: ss) [a, st] hs (by intro x hx; cases hx; simp [ha])
+  have hk : ∀ g : Option Node → M Node, (∀ x, g (some x) = pure x) → c.children.mapM g = pure ((s0 :: ss) ++ [a, st]) := by
+    intro g hg; rw [hc]; exact mapM_some_pure g hg _
+  have hlen : (c.children.length == 1) = false := by simp [hc]
+  have hne : (s0.name != "string") = false := by simp [h0]
+  have h0c : c.children[0]? = some (some s0) := by simp [hc]
+  rw [exceptHandler.eq_def]
+  simp only [hlen, child, h0c, pure_bind, hne, Bool.and_false]
+  rw [hk _ (fun _ => rfl)]
+  simp only [pure_bind, htd.1, htd.2]
+  simp [errType, hst, ha, hac, hat, tokOf, bindErrThen, child]
+  cases e <;> rfl
+
 end Ecal.Ev
